@@ -563,21 +563,19 @@ End Generic.
 (* which packages a rendering registers: exactly those of the leaves it renders                 *)
 Section Regs.
   Variable St : Type.
-  Variable reg : St -> list bytes.          (* the registered paths of a state *)
+  (* [R e e1 F]: going from state e to state e1 registered the packages F, e.g. "e1 = AddType of F, in order, on e",
+     or "the paths of e1 are those of e and F"; anything reflexive on [] and transitive on ++ *)
+  Variable R : St -> St -> list bytes -> Prop.
+  Hypothesis grows_refl : forall e, R e e [].
+  Hypothesis grows_trans : forall e e1 e2 F1 F2, R e e1 F1 -> R e1 e2 F2 -> R e e2 (F1 ++ F2).
 
   Notation rs := (rs St).
+  Notation grows := R.
 
-  Definition grows (e e1 : St) (F : list bytes) : Prop := forall p, In p (reg e1) <-> In p (reg e) \/ In p F.
   Definition regs_ok (o : rs) (F : list bytes) : Prop := forall e t e1, o e = Ok (t, e1) -> grows e e1 F.
 
-  Lemma grows_refl : forall e, grows e e [].
-  Proof. intros e p. cbn. tauto. Qed.
-
-  Lemma grows_trans : forall e e1 e2 F1 F2, grows e e1 F1 -> grows e1 e2 F2 -> grows e e2 (F1 ++ F2).
-  Proof. intros e e1 e2 F1 F2 H1 H2 p. rewrite (H2 p), (H1 p), in_app_iff. tauto. Qed.
-
   Lemma regs_ok_ext : forall a b F, eqr St a b -> regs_ok b F -> regs_ok a F.
-  Proof. intros a b F H R e t e1 Ha. rewrite H in Ha. eapply R; eauto. Qed.
+  Proof. intros a b F H Rb e t e1 Ha. rewrite H in Ha. eapply Rb; eauto. Qed.
 
   Lemma regs_ok_ret : forall b, regs_ok (ret_st St b) [].
   Proof. intros b e t e1 H. unfold ret_st in H. inversion H; subst. apply grows_refl. Qed.
@@ -595,8 +593,8 @@ Section Regs.
 
   Lemma regs_ok_emit : forall b k F, regs_ok k F -> regs_ok (emit_st St b k) F.
   Proof.
-    intros b k F R. eapply regs_ok_ext; [apply emit_as_emitr|].
-    change F with ([] ++ F). apply regs_ok_emitr; [apply regs_ok_ret|exact R].
+    intros b k F Rk. eapply regs_ok_ext; [apply emit_as_emitr|].
+    change F with ([] ++ F). apply regs_ok_emitr; [apply regs_ok_ret|exact Rk].
   Qed.
 
   Section SubstRegs.
